@@ -57,9 +57,9 @@ CHECKS = {
             'Trusted: the reading of the tie clause recorded in DESIGN 4/C08 (r strictly above a shared start: either range accepted, consistency demanded).',
             'DESIGN.md 4/C08'),
     'C10': (E1, 'exploration',
-            'exhaustive enumeration of end-potential pairs x knot lattices (incl. integer-typed knots, non-positive end values) x r_min x constructions (Python classes, spline() modifier, as.buck4 vs long form) on the real code; oracles: bit-identical end potentials outside, advertised shape from public coefficients inside, C2 joins against exact jets with a conditioning-scaled residual tolerance, agreement of constructions',
+            'exhaustive enumeration of end-potential pairs x knot lattices (incl. integer-typed knots, non-positive end values) x r_min x constructions (Python classes, spline() modifier, as.buck4 vs long form; custom-formula ends; windows up to 11-12 A) on the real code; oracles: bit-identical end potentials outside, advertised shape from public coefficients inside, C2 joins against exact jets with a conditioning-scaled residual tolerance, agreement of constructions',
             'Every spline of the stated lattice is constructed three ways and probed at the knots, their adjacent floats and an interior lattice; the continuity conditions determine the coefficients uniquely, so a wrong matrix row, swapped argument, shift error or comparison slip violates one of them.',
-            'Trusted: numpy cond/solve for the conditioning estimate; systems with cond > 1e10 or log-space uncertainty > 1e-7 are outside the well-conditioned range of the statement and are skipped (counted).',
+            'Join residuals are judged against the backward-error bound of the documented linear solve (2e4*eps*(|A||x|+|b|) per condition, log space for the exponential spline) plus the documented finite-difference error for end potentials without analytic derivatives; no spline of the lattice is skipped.',
             'DESIGN.md 4/C10'),
     'C11': (E1, 'exploration',
             'exhaustive evaluation of decimal (step, count) lattices (steps 1e-4..0.5, up to 19999 steps; 2.4M pairs) for every two-of-three combination on both grids through ConfigParser(..).tabulation, the complete rejection and default tables, and end-to-end row counting / spacing for all 11 targets with the independent readers',
@@ -72,22 +72,22 @@ CHECKS = {
             'Trusted: scipy builds the documented cubic spline; Richardson extrapolation error model.',
             'DESIGN.md 4/C18'),
     'C17': (E3, 'fault_enumeration',
-            'failure-point enumeration on the real code: count pass, then one execution per failing evaluation k = 1..N for every target (Python API with counting/raising proxies and a recording sink, followed by a second write() on the same object; potable main() in-process with a formula leaving its domain at every row of every function; real subprocess runs)',
+            'failure-point enumeration on the real code: count pass, then one execution per failing evaluation k = 1..N for every target (Python API with counting/raising proxies and a recording sink, followed by a second write() on the same object; 6 exception classes; multi-MiB tables failing late); potable main() in-process with a formula leaving its domain at every row of every function; real subprocess runs)',
             'All N crash points of every target are executed (N = 12..100 on the small grids used); the sink must have received nothing when write() raised, the named output file must be absent or empty, and a retry on the same object must be all-or-nothing.',
             'Failure model: an exception from a model callable / a formula outside its domain. OS-level faults (disk full, kill) are not modelled.',
             'DESIGN.md 4/C17'),
     'C13': (E2, 'model_checking',
-            'stateless explicit-history exploration on the real code: every valid sequence (depth <= 4, thorough 5) of create-view / read-view / tabulate-view operations over 8-12 filters and <= 3 live views of one parsed file, for pair, EAM, Finnis-Sinclair and ADP files, in lock-step with a text-editing reference; plus the full file x filter x target matrix through the potable command line',
+            'stateless explicit-history exploration on the real code: every valid sequence (depth <= 4, thorough 5) of create-view / read-view / tabulate-view operations over 8-12 filters and <= 3 live views of one parsed file (views of views and caller-owned list / tuple / iterator containers included), for pair, EAM, Finnis-Sinclair and ADP files, in lock-step with a text-editing reference; plus the full file x filter x target matrix through the potable command line',
             'Every history is executed on fresh real objects and each observation (parsed lists, table bytes) is compared with the file from which the entries were deleted by hand, parsed by the same implementation; interference between views appears as a difference that depends on the other operations of the history.',
             'Relational oracle (no expected numbers). Bounded: 3 species + one unknown label, <= 3 views, depth <= 5. Every explored trace is an implementation run (traces_validated_against_impl = histories).',
             'DESIGN.md 4/C13'),
     'C14': (E2, 'model_checking',
-            'stateless explicit-history exploration on the real code: every sequence (depth <= 3, thorough 4) of override / remove / add operations over an alphabet of section/key/value triples, through ConfigParser(overrides=, additional=) and through the potable command line (both option groupings), in lock-step with an ordered text model edited by hand',
+            'stateless explicit-history exploration on the real code: every sequence (depth <= 3, thorough 4) of override / remove / add operations over an alphabet of section/key/value triples, through ConfigParser(overrides=, additional=) (list / tuple / generator arguments) and through the potable command line (both option groupings; every sequence of 4-5 overrides over three items), in lock-step with an ordered text model edited by hand',
             'Each history is replayed on the implementation and on the text model; outcomes (configuration error at the first impossible edit, parsed lists, table bytes, --list-items / --list-item-labels / --item-value) must coincide.',
             'Relational oracle; command-line phase semantics as stated in the evidence assumptions; exact repetitions of one removal excluded.',
             'DESIGN.md 4/C14'),
     'C12': (E2, 'model_checking',
-            'stateless explicit-history exploration on the real code: every valid sequence (depth <= 4, thorough 5) of build / evaluate-probe / write operations over 8 models in one long-lived process, compared after every step with a pure reference obtained in a fresh process; environment dimension owned by seams: all 24 iteration orders of every library-built set (PermSet), fresh processes under 10 hash seeds, frozen clock for xlsx',
+            'stateless explicit-history exploration on the real code: every valid sequence (depth <= 4, thorough 5) of build / evaluate-probe / write operations over 8 models in one long-lived process, compared after every step with a pure reference obtained in a fresh process; environment dimension owned by seams: all 24 iteration orders of every library-built set (PermSet), fresh processes under 10 hash seeds for Configuration and for a potable command line with repeated options, frozen clock for xlsx',
             'Every history is an implementation run; any dependence of bytes or probe values on earlier builds, evaluations or writes, on set iteration order or on the hash seed is a difference from the fresh-process reference.',
             'Seams are harness-side patches (mc/seams.py). Bounded: 8 models, depth <= 5; sets built outside the four seam modules are covered by the hash-seed runs only. Known finding F03 (xlsx time stamps) is listed in known_findings.json.',
             'DESIGN.md 4/C12'),
